@@ -506,6 +506,8 @@ func c17Scripts(rep *kf.Report, cases []c17Case) int {
 		case "error":
 			if o != "error" {
 				rep.Add(kf.Mismatch{ID: id, Expected: "catchable error", Observed: o, ObsKey: "delivered-altered", Input: r.k.Sc})
+			} else if g, entered := got[i]; entered {
+				rep.Add(kf.Mismatch{ID: id, Expected: "catchable error before the Go function is entered", Observed: fmt.Sprintf("Go was entered with %v", g.Interface()), ObsKey: "entered-altered", Input: r.k.Sc})
 			}
 		case "delivered":
 			if o != "same" {
